@@ -6,7 +6,7 @@ CONSTANTS
   GridSeq <- G_Three
   StateModes <- M_Pat
   Patterns <- P_Few
-  Extents <- X_Few
+  Extents <- X_Zero
   Deltas <- D_Few
   Factors <- F_Few
   Shifts <- S_Few
